@@ -271,9 +271,10 @@ def main(argv=None):
         violations += 1
         rc = 1
     known_bounded = {}
-    open_keys = {e['bounded_key']: e['id'] for e in findings if e.get('status') == 'open' and e.get('bounded_key')}
+    import fnmatch as _fn
+    open_keys = [(e['bounded_key'], e['id']) for e in findings if e.get('status') == 'open' and e.get('bounded_key')]
     for bname, v in bviol:
-        kid = v.get('known_id') or open_keys.get(v.get('key'))
+        kid = v.get('known_id') or next((i for pat, i in open_keys if _fn.fnmatchcase(v.get('key', ''), pat)), None)
         if kid:
             known_bounded.setdefault(kid, []).append(v.get('what', ''))
             continue
